@@ -21,10 +21,19 @@
     (`zerofpr_interrupted_linesearch_discards`), and the next loop head exits, returning the
     iterate that was current when the line search began (`zerofpr_interrupted_linesearch_exits`);
   * whatever the landing point, the returned x / y / err_z satisfy the exit contract
-    (`Props/C03_Zerofpr.lean`, which quantifies over all stop schedules).
+    (`Props/C03_Zerofpr.lean`, which quantifies over all stop schedules);
+  * **whole-run bound**: with a flag that is never lowered and visible from tick `t₀` on, the solve
+    makes at most `max 8 (t₀ + 7)` events in all (`zerofpr_at_most_one_iteration_after_stop`) — "at
+    most one further iteration's worth of evaluations", wherever the request lands;
+  * **final status**: if the request was visible early enough before the end (`t₀ + 2 ≤ ticks`) the
+    status is `Interrupted`, or the natural status whose condition held at the last head
+    (`zerofpr_interrupted_or_natural`).
   Not modelled: data-race freedom of the flag (C++ memory model).
 -/
 import Alpaqa.Proofs.ZerofprInv
+import Alpaqa.Proofs.ZerofprTicks
+import Alpaqa.Proofs.ZerofprFuel
+import Alpaqa.Props.C06_Zerofpr
 import Alpaqa.Proofs.ZerofprExample
 
 namespace Alpaqa.Props.C19_Zerofpr
@@ -190,20 +199,20 @@ theorem zerofpr_init_ticks_after_stop (P : Problem α) (d0 : D) (pr : Params α)
     most `4` further calls (the head's `∇ψ(x̂)`, `p̂`, the criterion's unit step, the callback). -/
 theorem zerofpr_init_interrupted_exits (P : Problem α) (dir : Direction D α) (d0 : D)
     (pr : Params α) (stop : Nat → Bool) (hmono : Mono stop) (oot : Bool)
-    (x0 y Sig errz0 gV : Vec α) (gS : α) (s : St α D)
+    (x0 y Sig errz0 gV : Vec α) (gS iS : α) (s : St α D)
     (hi : initState P d0 pr stop x0 gV gS = .inr s) (h : stop s.tick = true) :
-    (run P dir d0 pr stop oot x0 y Sig errz0 gV gS).stats.status ≠ .Busy ∧
-    (run P dir d0 pr stop oot x0 y Sig errz0 gV gS).stats.iterations = 0 ∧
-    (run P dir d0 pr stop oot x0 y Sig errz0 gV gS).final = some s.curr ∧
-    (run P dir d0 pr stop oot x0 y Sig errz0 gV gS).callbacks.length = 1 ∧
-    (run P dir d0 pr stop oot x0 y Sig errz0 gV gS).ticks ≤ s.tick + 4 := by
+    (run P dir d0 pr stop oot x0 y Sig errz0 gV gS iS).stats.status ≠ .Busy ∧
+    (run P dir d0 pr stop oot x0 y Sig errz0 gV gS iS).stats.iterations = 0 ∧
+    (run P dir d0 pr stop oot x0 y Sig errz0 gV gS iS).final = some s.curr ∧
+    (run P dir d0 pr stop oot x0 y Sig errz0 gV gS iS).callbacks.length = 1 ∧
+    (run P dir d0 pr stop oot x0 y Sig errz0 gV gS iS).ticks ≤ s.tick + 4 := by
   have hg := initState_good P d0 pr stop x0 gV gS s hi
   have hp : stop (headPollTick pr s) = true := hmono _ _ (by unfold headPollTick; omega) h
   have he := zerofpr_stop_at_head_exits P dir pr stop oot x0 y Sig errz0 (pr.maxIter + 1) s hp
   have hx := exitBlock_spec pr (headStep P pr stop oot s).1 (headStep P pr stop oot s).2.1
     (headStep P pr stop oot s).2.2 x0 y Sig errz0
   have hs := headStep_same P pr stop oot s
-  have hr : run P dir d0 pr stop oot x0 y Sig errz0 gV gS =
+  have hr : run P dir d0 pr stop oot x0 y Sig errz0 gV gS iS =
       mainLoop P dir pr stop oot x0 y Sig errz0 (pr.maxIter + 1 + 1) s := by
     unfold run; rw [hi]
   have he' : epsTicks pr.stopCrit ≤ 1 := by cases pr.stopCrit <;> simp [epsTicks]
@@ -215,11 +224,110 @@ theorem zerofpr_init_interrupted_exits (P : Problem α) (dir : Direction D α) (
     rw [← hr, hg.2.2.1] at ht
     have hl := congrArg List.length ht
     simp only [List.length_tail, List.length_reverse, List.length_nil] at hl
-    have hne : (run P dir d0 pr stop oot x0 y Sig errz0 gV gS).callbacks ≠ [] := by
+    have hne : (run P dir d0 pr stop oot x0 y Sig errz0 gV gS iS).callbacks ≠ [] := by
       rw [hr, he.2.2.1]; unfold exitBlock; simp
     have := List.length_pos_iff.mpr hne
     omega
   · rw [hr, he.2.2.2.2.1]; unfold headPollTick; omega
+
+/-! ### Whole-run bound and final status -/
+
+/-- Tick bound for the main loop: with a flag that is never lowered and visible from tick `t₀` on, a
+    solve that is at a loop head at tick `s.tick` ends at tick `≤ max (s.tick + 4) (t₀ + 7)`
+    (`4` = head `≤ 3` + final callback; `7` = `≤ 3` calls of the stage in flight when the flag became
+    visible, then that head and the final callback). -/
+theorem zerofpr_mainLoop_ticks_after_stop (P : Problem α) (dir : Direction D α) (pr : Params α)
+    (stop : Nat → Bool) (hmono : Mono stop) (t0 : Nat) (h0 : stop t0 = true) (oot : Bool)
+    (x0 y Sig errz0 : Vec α) (fuel : Nat) (s : St α D) :
+    (mainLoop P dir pr stop oot x0 y Sig errz0 fuel s).ticks ≤ max (s.tick + 4) (t0 + 7) :=
+  mainLoop_ticks_after_stop P dir pr stop hmono t0 h0 oot x0 y Sig errz0 fuel s
+
+/-- **At most one further iteration's worth of evaluations after `stop()`** — wherever the request
+    lands, the initialisation included: if the flag (never lowered) is visible from tick `t₀` on, the
+    solve ends at tick `≤ max 8 (t₀ + 7)`, independent of the number of step-size backtracks or
+    line-search passes still pending, and without any fuel hypothesis.
+    `8` = a request already visible at the first poll: `≤ 4` calls before that poll (Lipschitz
+    estimate, first proximal-gradient step) + first head (`≤ 3`) + final callback;
+    `t₀ + 7`: see `zerofpr_mainLoop_ticks_after_stop`. -/
+theorem zerofpr_at_most_one_iteration_after_stop (P : Problem α) (dir : Direction D α) (d0 : D)
+    (pr : Params α) (stop : Nat → Bool) (hmono : Mono stop) (t0 : Nat) (h0 : stop t0 = true)
+    (oot : Bool) (x0 y Sig errz0 gV : Vec α) (gS iS : α) :
+    (run P dir d0 pr stop oot x0 y Sig errz0 gV gS iS).ticks ≤ max 8 (t0 + 7) := by
+  unfold run
+  cases hi : initState P d0 pr stop x0 gV gS with
+  | inl t =>
+    simp only []
+    have hc : (initLipschitz P pr x0 gV gS).2.2 ≤ 2 := by
+      unfold initLipschitz; simp only []; split_ifs <;> simp
+    unfold initState at hi
+    simp only [] at hi
+    split_ifs at hi
+    injection hi with hi
+    omega
+  | inr s =>
+    simp only []
+    have h1 := zerofpr_init_ticks_after_stop P d0 pr stop hmono t0 h0 x0 gV gS s hi
+    have h2 := zerofpr_mainLoop_ticks_after_stop P dir pr stop hmono t0 h0 oot x0 y Sig errz0
+      (pr.maxIter + 2) s
+    omega
+
+/-- The bound in the form `t₀ + c`: `≤ t₀ + 8` always, `≤ t₀ + 7` for a request that lands during or
+    after the first oracle call (`t₀ ≥ 1` — every request made while the solve is running). -/
+theorem zerofpr_ticks_after_stop_le (P : Problem α) (dir : Direction D α) (d0 : D)
+    (pr : Params α) (stop : Nat → Bool) (hmono : Mono stop) (t0 : Nat) (h0 : stop t0 = true)
+    (oot : Bool) (x0 y Sig errz0 gV : Vec α) (gS iS : α) :
+    (run P dir d0 pr stop oot x0 y Sig errz0 gV gS iS).ticks ≤ t0 + 8 ∧
+    (1 ≤ t0 → (run P dir d0 pr stop oot x0 y Sig errz0 gV gS iS).ticks ≤ t0 + 7) := by
+  have := zerofpr_at_most_one_iteration_after_stop P dir d0 pr stop hmono t0 h0 oot x0 y Sig errz0
+    gV gS iS
+  constructor
+  · omega
+  · intro h1; omega
+
+/-- With the stop flag visible, the chain returns `Interrupted` unless one of the higher-priority
+    conditions holds — and then it returns exactly that condition's status. -/
+theorem chain_with_stop (tol : α) (maxIter maxNP k : Nat) (ε : α) (np : Nat) (oot : Bool) :
+    statusChain tol maxIter maxNP k ε np oot true = .Interrupted ∨
+    (statusChain tol maxIter maxNP k ε np oot true = .Converged ∧ ε ≤ C06.effTol tol) ∨
+    (statusChain tol maxIter maxNP k ε np oot true = .MaxTime ∧ oot = true) ∨
+    (statusChain tol maxIter maxNP k ε np oot true = .MaxIter ∧ k = maxIter) ∨
+    (statusChain tol maxIter maxNP k ε np oot true = .NotFinite ∧ RealLike.isFinite ε = false) ∨
+    (statusChain tol maxIter maxNP k ε np oot true = .NoProgress ∧ np > maxNP) := by
+  unfold statusChain C06.effTol
+  simp only []
+  split_ifs <;> simp_all
+
+/-- **Final status is `Interrupted` unless a higher-priority chain condition holds at that head**:
+    if the flag (never lowered) was visible from tick `t₀` and the solve made at least `t₀ + 2` events
+    in all — i.e. it did not finish before the request could be seen (the last head polls at tick
+    `ticks − 1`) — the returned status is `Interrupted`, or it is the natural status whose condition
+    held at the last head: `Converged ∧ ε ≤ tol'`, `MaxTime`, `MaxIter ∧ iterations = max_iter`,
+    `NotFinite ∧ ε not finite`, `NoProgress ∧ counter > max_no_progress` with the counter of the
+    reported iterates (`Props/C06_Zerofpr.cbFlags`). -/
+theorem zerofpr_interrupted_or_natural_fuel (P : Problem α) (dir : Direction D α) (d0 : D)
+    (pr : Params α) (stop : Nat → Bool) (hmono : Mono stop) (t0 : Nat) (h0 : stop t0 = true)
+    (oot : Bool) (x0 y Sig errz0 gV : Vec α) (gS iS : α) (s0 : St α D)
+    (hinit : initState P d0 pr stop x0 gV gS = .inr s0)
+    (hfuel : (run P dir d0 pr stop oot x0 y Sig errz0 gV gS iS).fuelOut = false)
+    (hlate : t0 + 2 ≤ (run P dir d0 pr stop oot x0 y Sig errz0 gV gS iS).ticks) :
+    (run P dir d0 pr stop oot x0 y Sig errz0 gV gS iS).stats.status = .Interrupted ∨
+    ((run P dir d0 pr stop oot x0 y Sig errz0 gV gS iS).stats.status = .Converged ∧
+      (run P dir d0 pr stop oot x0 y Sig errz0 gV gS iS).stats.eps ≤ C06.effTol pr.tolerance) ∨
+    ((run P dir d0 pr stop oot x0 y Sig errz0 gV gS iS).stats.status = .MaxTime ∧ oot = true) ∨
+    ((run P dir d0 pr stop oot x0 y Sig errz0 gV gS iS).stats.status = .MaxIter ∧
+      (run P dir d0 pr stop oot x0 y Sig errz0 gV gS iS).stats.iterations = pr.maxIter) ∨
+    ((run P dir d0 pr stop oot x0 y Sig errz0 gV gS iS).stats.status = .NotFinite ∧
+      RealLike.isFinite (run P dir d0 pr stop oot x0 y Sig errz0 gV gS iS).stats.eps = false) ∨
+    ((run P dir d0 pr stop oot x0 y Sig errz0 gV gS iS).stats.status = .NoProgress ∧
+      C06.npRun pr.maxNoProgress 0 0
+        (C06_Zerofpr.cbFlags (run P dir d0 pr stop oot x0 y Sig errz0 gV gS iS).callbacks)
+          > pr.maxNoProgress) := by
+  obtain ⟨t, hst, ht, _⟩ := C06_Zerofpr.zerofpr_no_progress_counter_fuel P dir d0 pr stop oot
+    x0 y Sig errz0 gV gS iS s0 hinit hfuel
+  have hstop : stop t = true := hmono t0 t (by omega) h0
+  rw [hstop] at hst
+  rw [hst]
+  exact chain_with_stop _ _ _ _ _ _ _
 
 /-- Non-vacuity of `Mono`: the schedule the replay uses, `t ≥ stoptick`. -/
 example (k : Nat) : Mono (fun t => decide (t ≥ k)) := by
@@ -246,7 +354,7 @@ example : (exRun stopAt9).stats.status = SolverStatus.Interrupted ∧
     first head returns `Interrupted` at tick 8 = 4 + 4 with the single final callback; undisturbed the
     solve takes 38 events. -/
 example :
-    let r := fun stop => run exP exDir () { exPr with L0 := 1/16 } stop false [3] [5] [2] [7] [] 0
+    let r := fun stop => run exP exDir () { exPr with L0 := 1/16 } stop false [3] [5] [2] [7] [] 0 1000000
     (r (fun t => decide (t ≥ 4))).stats.status = SolverStatus.Interrupted ∧
     (r (fun t => decide (t ≥ 4))).stats.stepsizeBacktracks = 1 ∧
     (r (fun t => decide (t ≥ 4))).ticks = 8 ∧ (r (fun t => decide (t ≥ 4))).callbacks.length = 1 ∧
@@ -255,5 +363,54 @@ example :
   decide +kernel
 
 end examples
+
+/-! ### Fuel hypothesis discharged (ordered field) -/
+section field
+variable {α D : Type} [Field α] [LinearOrder α] [IsStrictOrderedRing α] [RealLike α]
+
+/-- `zerofpr_interrupted_or_natural_fuel` with the fuel hypothesis discharged from `FuelOK`. -/
+theorem zerofpr_interrupted_or_natural (P : Problem α) (dir : Direction D α) (d0 : D)
+    (pr : Params α) (stop : Nat → Bool) (hmono : Mono stop) (N M : Nat) (hF : FuelOK pr N M)
+    (t0 : Nat) (h0 : stop t0 = true)
+    (oot : Bool) (x0 y Sig errz0 gV : Vec α) (gS iS : α) (s0 : St α D)
+    (hinit : initState P d0 pr stop x0 gV gS = .inr s0)
+    (hlate : t0 + 2 ≤ (run P dir d0 pr stop oot x0 y Sig errz0 gV gS iS).ticks) :
+    (run P dir d0 pr stop oot x0 y Sig errz0 gV gS iS).stats.status = .Interrupted ∨
+    ((run P dir d0 pr stop oot x0 y Sig errz0 gV gS iS).stats.status = .Converged ∧
+      (run P dir d0 pr stop oot x0 y Sig errz0 gV gS iS).stats.eps ≤ C06.effTol pr.tolerance) ∨
+    ((run P dir d0 pr stop oot x0 y Sig errz0 gV gS iS).stats.status = .MaxTime ∧ oot = true) ∨
+    ((run P dir d0 pr stop oot x0 y Sig errz0 gV gS iS).stats.status = .MaxIter ∧
+      (run P dir d0 pr stop oot x0 y Sig errz0 gV gS iS).stats.iterations = pr.maxIter) ∨
+    ((run P dir d0 pr stop oot x0 y Sig errz0 gV gS iS).stats.status = .NotFinite ∧
+      RealLike.isFinite (run P dir d0 pr stop oot x0 y Sig errz0 gV gS iS).stats.eps = false) ∨
+    ((run P dir d0 pr stop oot x0 y Sig errz0 gV gS iS).stats.status = .NoProgress ∧
+      C06.npRun pr.maxNoProgress 0 0
+        (C06_Zerofpr.cbFlags (run P dir d0 pr stop oot x0 y Sig errz0 gV gS iS).callbacks)
+          > pr.maxNoProgress) :=
+  zerofpr_interrupted_or_natural_fuel P dir d0 pr stop hmono t0 h0 oot x0 y Sig errz0 gV gS iS s0
+    hinit (run_fuel P dir d0 pr stop hmono N M hF oot x0 y Sig errz0 gV gS iS) hlate
+
+/-- **The model's fuel never runs out** for parameters satisfying `FuelOK` and a flag that is never
+    lowered — in particular the main loop never ends in the model's artificial `Exception` exit. -/
+theorem zerofpr_fuel_suffices (P : Problem α) (dir : Direction D α) (d0 : D) (pr : Params α)
+    (stop : Nat → Bool) (hmono : Mono stop) (N M : Nat) (hF : FuelOK pr N M) (oot : Bool)
+    (x0 y Sig errz0 gV : Vec α) (gS iS : α) :
+    (run P dir d0 pr stop oot x0 y Sig errz0 gV gS iS).fuelOut = false :=
+  run_fuel P dir d0 pr stop hmono N M hF oot x0 y Sig errz0 gV gS iS
+
+section examples
+open Alpaqa.Zerofpr.Example
+
+/-- the concrete solve with the flag visible from tick 9: all hypotheses hold (`FuelOK`, `Mono`, the
+    solve reached the main loop, `9 + 2 ≤ 12 = ticks`), the status is `Interrupted`, and the whole-run
+    bound `12 ≤ max 8 (9 + 7)` is met. -/
+example : (∃ s0, initState exP () { exPr with lsFuel := 4096 } stopAt9 [3] [] 0 = .inr s0) ∧
+    (run exP exDir () { exPr with lsFuel := 4096 } stopAt9 false [3] [5] [2] [7] [] 0 1000000).ticks = 12 ∧
+    (run exP exDir () { exPr with lsFuel := 4096 } stopAt9 false [3] [5] [2] [7] [] 0
+      1000000).stats.status = SolverStatus.Interrupted := by
+  refine ⟨⟨_, rfl⟩, ?_⟩; decide +kernel
+
+end examples
+end field
 
 end Alpaqa.Props.C19_Zerofpr
